@@ -56,7 +56,11 @@ func waitNames(ids []int) []string {
 }
 
 // script renders the body of task id.
-func (c *Case) script(id int) string {
+func (c *Case) script(id int) string { return strings.Join(c.scriptLines(id), "\n") }
+
+// scriptLines renders the body of task id, one element per command (an element contains
+// newlines when the command carries heredoc arguments).
+func (c *Case) scriptLines(id int) []string {
 	t := c.Tasks[id]
 	lines := make([]string, 0, len(t.Body))
 	for i, cmd := range t.Body {
@@ -99,7 +103,7 @@ func (c *Case) script(id int) string {
 			lines = append(lines, sb.String())
 		}
 	}
-	return strings.Join(lines, "\n")
+	return lines
 }
 
 // taskOfName maps a full task name of the real task manager (t3, t3:t7, t3:y0:body,
